@@ -30,6 +30,12 @@ FETCH_PARTS = [
     b'(BODY.PEEK[2] BODY.PEEK[1.1] BODY.PEEK[1.2.MIME])', b'ALL', b'FULL',
     b'FAST', b'(BODY.PEEK[1.HEADER] BODY.PEEK[1.TEXT])',
     b'(BINARY.PEEK[]<0.10>)', b'(BODY.PEEK[TEXT]<100000.5>)',
+    # header field names that cannot be echoed as atoms or quoted strings
+    b'(BODY.PEEK[HEADER.FIELDS ({3+}\r\nX\rA)])',
+    b'(BODY.PEEK[HEADER.FIELDS ({3+}\r\nX\xe9A Subject)])',
+    b'(BODY.PEEK[HEADER.FIELDS.NOT ({4+}\r\nX\r\nA {1+}\r\n\x00)])',
+    b'(BODY.PEEK[HEADER.FIELDS ("a\\"b" "c\\\\d" {2+}\r\ne]))',
+    b'(BODY.PEEK[1.HEADER.FIELDS ({2+}\r\n\n\n)])',
 ]
 KEYWORDS = [b'$Forwarded', b'kw', b'$MDNSent', b'a.b', b'NonJunk', b'k\xc3\xa9',
             b'x]y', b'k[w', b'~k', b'1', b'NIL']
@@ -37,7 +43,11 @@ DATES = [b'01-Jan-2024 10:00:00 +0000', b' 1-Jan-2024 10:00:00 +0000',
          b'31-Dec-1999 23:59:59 -1200', b'01-Jan-0999 00:00:00 +0000',
          b'01-Jan-0001 00:00:00 +0000', b'15-Jun-9999 12:00:00 +1400',
          b'29-Feb-2024 00:00:00 +0530', b'01-Jan-1970 00:00:00 +0000',
-         b'01-Jan-1969 00:00:00 +0000', b'01-Jan-1900 00:00:00 -0001']
+         b'01-Jan-1969 00:00:00 +0000', b'01-Jan-1900 00:00:00 -0001',
+         # zones that strptime('%z') takes and the grammar does not
+         b'01-Jan-2024 10:00:00 +010203', b'01-Jan-2024 10:00:00 +01:00',
+         b'01-Jan-2024 10:00:00 Z', b'01-Jan-2024 10:00:00 -0330',
+         b'01-Jan-2024 10:00:00 +0530', b'01-Jan-2024 10:00:00 -00:30:15']
 
 
 def pick_name(rng: random.Random) -> str:
@@ -105,9 +115,18 @@ async def drive(spec: dict[str, Any], run: Run) -> None:
                 for _ in range(rng.choice([2, 4]))) + b')', 'id')
         if rng.random() < 0.3:
             tag = c.next_tag()
-            await raw_line(tag + b' AUTHENTICATE PLAIN\r\n')
+            # the reply goes into the exchange (raw_line would cancel it)
+            c.in_flight = tag + b' AUTHENTICATE PLAIN'
+            c.feed(tag + b' AUTHENTICATE ' + rng.choice(
+                [b'PLAIN', b'LOGIN', b'plain']) + b'\r\n')
+            run.count('commands')
+            await c.loop.quiescent()          # type: ignore[attr-defined]
+            c.drain_new()
+            c.in_flight = None
             await raw_line(rng.choice([b'*', b'!!!', b'AGEAYg==',
-                                       b'\xff\xfe', b'=']) + b'\r\n')
+                                       b'\xff\xfe', b'=', b'abcde', b'a',
+                                       b'!!!notbase64', b'YWJj=YQ',
+                                       b'AGEAYg=']) + b'\r\n')
             await cmd(b'NOOP', 'resync')
         await cmd(b'LOGIN u1 pw1', 'login')
         # names
@@ -195,6 +214,22 @@ async def script_echo(spec: dict[str, Any], run: Run) -> None:
                 break
             await c.simple(line.encode('latin-1'))
             run.count('commands')
+        # exchanges on a second, not authenticated connection: [line, reply
+        # to the continuation request]
+        if spec.get('preauth'):
+            c2 = Conn(2, Sched())
+            run.conns.append(c2)
+            c2.start(env.imap)
+            await c2.greeting()
+            for line, reply in spec['preauth']:
+                c2.feed(c2.next_tag() + b' ' + line.encode('latin-1') +
+                        b'\r\n')
+                await c2.loop.quiescent()     # type: ignore[attr-defined]
+                c2.drain_new()
+                c2.feed(reply.encode('latin-1') + b'\r\n')
+                await c2.loop.quiescent()     # type: ignore[attr-defined]
+                c2.drain_new()
+                run.count('commands')
         if not c.dead:
             await c.simple(b'LOGOUT')
     finally:
